@@ -17,6 +17,7 @@ delivered yet.  With `C07_order`/`C07_produced` (which hold in the new pass as i
 Next calls therefore deliver `src (pass₀+1)` from position 0, gap-free: nothing of the new pass is dropped. -/
 theorem C08_fresh_pass (h : Reachable P s) (hs : step P s .xStep = some s') (hx : s.xloc = .bExc1) (hr : s'.ret = .ok) :
     s'.pass = s'.bfPass + 1 ∧ s'.delivered = [] ∧ s'.xloc = .idle := by
+  show _ ∧ _ ∧ _
   have he := (inv_reachable h).e.bf3 (Or.inr hx)
   unfold step at hs
   simp only [stepR, xStep, hx] at hs
@@ -25,7 +26,7 @@ theorem C08_fresh_pass (h : Reachable P s) (hs : step P s .xStep = some s') (hx 
   simp only at hr ⊢
   cases hexc : s.exc with
   | true => simp [hexc] at hr
-  | false => simp [hexc] at he; exact ⟨he.1, he.2, rfl⟩
+  | false => simp [hexc] at he; exact ⟨he.1, he.2, trivial⟩
 
 /-- every item that is delivered, queued or in flight belongs to the current pass: nothing produced before a
 rewind survives it -/
